@@ -615,6 +615,17 @@ func (k *c10k) elemsNonNeg(s ssa.Value, d int) bool {
 				return k.appendedNonNeg(a[1], d+1)
 			}
 			return true
+		default:
+			// a helper of the repository that builds and returns the slice
+			if g := x.Common().StaticCallee(); g != nil && k.c.P.IsRepoFunc(g) && len(g.Blocks) > 0 && g.Signature.Results().Len() == 1 {
+				rets := ssau.ReturnsOf(g)
+				for _, ret := range rets {
+					if !k.elemsNonNeg(ret.Results[0], d+1) {
+						return false
+					}
+				}
+				return len(rets) > 0
+			}
 		}
 	case *ssa.MakeSlice:
 		// zero-filled; direct element stores must be non-negative too
